@@ -95,6 +95,37 @@ func (w *World) ResolveFieldRenames(known map[string]string) []string {
 			fieldAlias[k[:i]+"."+cands[0]] = k
 			out = append(out, k+" -> "+cands[0])
 		}
+		if !found && len(cands) == 0 {
+			// wrapped: the field moved into a small struct of the same package that the old struct now holds
+			// (transaction *Transaction -> slot transactionSlot{tx *Transaction})
+			var nested []string
+			for j := 0; j < st.NumFields(); j++ {
+				ft := st.Field(j).Type()
+				if p, isPtr := ft.(*types.Pointer); isPtr {
+					ft = p.Elem()
+				}
+				named, isNamed := ft.(*types.Named)
+				if !isNamed || named.Obj().Pkg() == nil || !strings.HasPrefix(named.Obj().Pkg().Path(), Module) {
+					continue
+				}
+				inner, isStruct := named.Underlying().(*types.Struct)
+				if !isStruct {
+					continue
+				}
+				if _, isKnown := known[k[:i]+"."+st.Field(j).Name()]; isKnown {
+					continue
+				}
+				for m := 0; m < inner.NumFields(); m++ {
+					if types.TypeString(inner.Field(m).Type(), nil) == known[k] {
+						nested = append(nested, TypeKey(named)+"."+inner.Field(m).Name())
+					}
+				}
+			}
+			if len(nested) == 1 {
+				fieldAlias[nested[0]] = k
+				out = append(out, k+" -> "+nested[0])
+			}
+		}
 	}
 	return out
 }
